@@ -173,6 +173,7 @@ class MultiWorld(schedeng.World):
         self.observer_died = False
         self.ptoks = []
         self.all_tokens = []
+        self.asked = self.total  # largest total asked so far through `recreate`
         self.objs = [[] for _ in range(self.ns)]  # live CounterToken objects of each simulated process on the directory
         for s in range(self.ns):
             self.T[s] = self._new_token(s)
@@ -443,6 +444,7 @@ class MultiWorld(schedeng.World):
         """process `s` asks again for the same named token with `newtotal`, through the real per-process registry
         (`CounterToken.create`, what `connector.createtoken` / `xp.token` call); the registry of the simulated process
         holds its one token object"""
+        self.asked = max(self.asked, newtotal)
         saved = CounterToken.TOKENS
         CounterToken.TOKENS = {"t": self.T[s]}
         self.cur = s
@@ -616,7 +618,7 @@ class MultiWorld(schedeng.World):
             ch.append(["racedel"])
         if faults.get("recreate"):
             ch += [["recreate", s, t] for s in range(self.ns) if not self.dropped[s] and self.ipc is None
-                   for t in sorted({self.total, self.total + 1, max(1, self.total - 1)})]
+                   for t in (self.asked, self.asked + 1)]  # never a lower total: shrinking under running jobs is not at issue
         if faults.get("race"):
             ch += [["race", q] for q in range(self.ns) if self.alive[q] and not self.dropped[q] and q not in self.race]
         return ch
